@@ -764,3 +764,6 @@ def run_case(case):
     else:
         raise Inconclusive("unknown case shape")
     return out
+
+
+RULE = RULE + " " + "Later additions: the class-level printer Quantity.sidict_to_unit with the caller's key order and zero entries round-trips through the parser (the '1' placeholder of an empty numerator is stripped)."
